@@ -172,12 +172,17 @@ def inputs_for(prop, tier):
         for i in range(24 if q else 240):
             items.append({"kind": "stress", "threads": rnd.choice([2, 3, 4]), "ops": rnd.choice([5, 6, 8]), "keys": rnd.choice([1, 2, 2]),
                           "windows": 5 if q else 8, "pool": rnd.choice([0, 1, 1, 2, 4]), "cache": rnd.choice([1, 2, 256]),
-                          "max_file": rnd.choice([0, 200, 30000, 30000]), "delay_us": rnd.choice([100, 400, 1500]), "merger": i % 4 != 0})
+                          "max_file": rnd.choice([0, 200, 30000, 30000]), "delay_us": rnd.choice([100, 400, 1500]), "merger": i % 4 != 0,
+                          "clock": i % 3 == 1})
     elif prop == "C17":
         far = {"merge": {"policy": "always", "check_interval_ms": 3600000}}
         items.append({"kind": "idle", "config": far})
         items.append({"kind": "idle", "config": {"merge": {"policy": "never"}}})
         items.append({"kind": "idle", "config": {"sync": {"interval_ms": 3600000}, "merge": {"policy": "always", "check_interval_ms": 3600000}}})
+        # the smallest intervals: the tasks must still look at the shutdown channel
+        items.append({"kind": "idle-busy", "config": {"sync": {"interval_ms": 0}}})
+        items.append({"kind": "idle-busy", "config": {"sync": {"interval_ms": 1}, "merge": {"policy": "always", "check_interval_ms": 0}}})
+        items.append({"kind": "cycles", "n": 6, "config": {"sync": {"interval_ms": 0}, "merge": {"policy": "always", "check_interval_ms": 0}}})
         trig = {"fragmentation": 0.1, "dead_bytes": 10}
         for _ in range(2 if q else 6):
             items.append({"kind": "at-point", "point": "bg.merge.woke", "config": {"merge": {"policy": "always", "check_interval_ms": 40}}})
@@ -203,6 +208,12 @@ def inputs_for(prop, tier):
             items.append({"pattern": "sync-busy", "interval_ms": interval, "observe": 8})
         for interval, jitter in ((150, 0.0), (200, 0.3)):
             items.append({"policy": "always", "pattern": "frag-fault", "interval_ms": interval, "jitter": jitter, "observe": 5})
+            # a trigger crossed by deletes alone, after the task has already checked a few times and found nothing
+            items.append({"policy": "always", "pattern": "late-del", "interval_ms": interval, "jitter": jitter, "observe": 4})
+        # the policy does not depend on the time of day: the same crossing at the first, a middle and the last hour
+        for hour in (0, 12, 22, 23):
+            items.append({"policy": "always", "pattern": "frag", "interval_ms": 100, "jitter": 0.0, "observe": 3, "hour": hour})
+            items.append({"policy": "never", "pattern": "frag", "interval_ms": 100, "jitter": 0.0, "observe": 3, "hour": hour})
     return items
 
 
